@@ -231,6 +231,58 @@ def run_handover(sc, chooser):
     return {"ev": s.log, "dests": sc["dests"], "errors": [repr(t.error) for t in s.threads.values() if t.error] + ([s.deadlock] if s.deadlock else [])}, s.steps
 
 
+def run_handover_cap(sc, chooser):
+    """The hand-over with a FULL start-up buffer (>= 1000 buffered messages) and global fields set just before the first add():
+    a logger thread races the adder.  Only a summary goes to TLC (HandoverCapA.tla): what each destination was offered, in order."""
+    racing = set(i for ids in sc["threads"].values() for i in ids)
+
+    def lf(frame):
+        # the thousand buffered messages need no pre-emption points of their own inside the fan-out
+        if frame.f_code.co_name in ("send", "_deliver", "_report", "_offer", "_offer_with_globals", "_report_failures"):
+            m = frame.f_locals.get("message")
+            return not isinstance(m, dict) or m.get("id") in racing
+        return True
+    s = S.Sched(("eliot/_output.py",), line_filter=lf)
+    _patch_locks(s)
+    D = Destinations()
+    buf = D._destinations[0]
+    if hasattr(buf, "_lock") and not isinstance(buf._lock, S.CoopLock):
+        buf._lock = S.CoopLock(s)
+    offered = {d: [] for d in sc["dests"]}
+    gf_done = [False]
+    inv_after_gf = set()
+    dests = []
+    for d in sc["dests"]:
+        def dest(msg, d=d):
+            if msg["id"] in racing:
+                s.yield_point(("dest", d))
+            offered[d].append([msg["id"], 1 if "g9" in msg else 0, 1 if gf_done[0] else 0, 1 if msg["id"] in inv_after_gf else 0])
+        dests.append(dest)
+    for i in sc["pre"]:
+        D.send(dict(base(i), message_type="m"))
+
+    def logger(ids):
+        def body():
+            for i in ids:
+                if gf_done[0]:
+                    inv_after_gf.add(i)
+                D.send(dict(base(i), message_type="m"))
+        return body
+
+    def adder():
+        if sc.get("gf"):
+            D.addGlobalFields(g9=1)
+            gf_done[0] = True
+        D.add(*dests)
+
+    for name, ids in sorted(sc["threads"].items()):
+        s.spawn(name, logger(ids))
+    s.spawn("A", adder)
+    s.run(chooser)
+    return {"pre": sc["pre"], "late": sorted(racing), "offered": [offered[d] for d in sc["dests"]], "gf": 1 if sc.get("gf") else 0,
+            "errors": [repr(t.error) for t in s.threads.values() if t.error] + ([s.deadlock] if s.deadlock else [])}, s.steps
+
+
 def run_fanout(sc, chooser):
     """Several threads log through one Destinations whose destinations fail on chosen messages."""
     from eliot import log_message
@@ -503,7 +555,7 @@ def run_writer_stall(sc, chooser):
             "errors": []}, [([], "free-running", False)]
 
 
-RUNNERS = {"writer_stall": run_writer_stall, "regrace": run_regrace, "fanout": run_fanout, "writer": run_writer, "memlog": run_memlog, "filedest": run_filedest, "handover": run_handover, "once": run_once}
+RUNNERS = {"handover_cap": run_handover_cap, "writer_stall": run_writer_stall, "regrace": run_regrace, "fanout": run_fanout, "writer": run_writer, "memlog": run_memlog, "filedest": run_filedest, "handover": run_handover, "once": run_once}
 
 
 def main():
@@ -529,7 +581,7 @@ def main():
             continue
         t0 = time.time()
         n = 0
-        for choices, result in S.explore(make_run, sc.get("max_pre", 2), sc.get("cap", 300), sc.get("seed", 0), sc.get("random", 0)):
+        for choices, result in S.explore(make_run, sc.get("max_pre", 2), sc.get("cap", 300), sc.get("seed", 0), sc.get("random", 0), early=sc.get("early", False)):
             result["schedule"] = choices
             hist.append(result)
             n += 1
